@@ -14,6 +14,7 @@ import Penguin.Model.Mux
 import Penguin.Lemmas.MuxBasic
 import Penguin.Lemmas.MuxStep
 import Penguin.Lemmas.LinkGlue
+import Penguin.Lemmas.MuxReach
 
 namespace Penguin.C08
 open Penguin Penguin.Mux
@@ -138,23 +139,24 @@ theorem flush_on_drop_backpressure (e : EP) (res : ExitRes) :
     once the queue is empty the sink is closed. -/
 theorem drain_resumes (e : EP) (res : ExitRes) (fuel : Nat) (acc : List Ev)
     (hd : e.dead = false) (hdr : e.draining = some res) :
+    settleLoop (fuel + 1) e acc = ((drainStep e res).1, acc ++ (drainStep e res).2) ∧
     ∃ sent, sent ++ (sendSome e).1.outq = e.outq ∧ (sendSome e).2 = sent.map Ev.wire ∧
-      (((sendSome e).1.outq ≠ [] → settleLoop (fuel + 1) e acc = ((sendSome e).1, acc ++ sent.map Ev.wire)) ∧
+      (((sendSome e).1.outq ≠ [] → drainStep e res = sendSome e) ∧
        ((sendSome e).1.outq = [] →
-          ∃ rest, (settleLoop (fuel + 1) e acc).2 = acc ++ (e.outq.map Ev.wire ++ Ev.wireClose :: rest))) := by
+          ∃ rest, (drainStep e res).2 = e.outq.map Ev.wire ++ Ev.wireClose :: rest)) := by
+  refine ⟨by simp [settleLoop, hd, hdr], ?_⟩
   obtain ⟨sent, hs1, hs2⟩ := Mux.sendSome_split e
   refine ⟨sent, hs2, hs1, ?_, ?_⟩
   · intro hne
     have hq : (sendSome e).1.outq.isEmpty = false := by
       cases h : (sendSome e).1.outq <;> simp_all
-    simp only [settleLoop, hd, hdr, Bool.false_eq_true, if_false, hq]
-    rw [hs1]
+    simp [drainStep, hq]
   · intro hempty
     have hq : (sendSome e).1.outq.isEmpty = true := by simp [hempty]
-    simp only [settleLoop, hd, hdr, Bool.false_eq_true, if_false, hq, if_true]
+    simp only [drainStep, hq, if_true]
     rw [hempty, List.append_nil] at hs2
     rw [← hs2, ← hs1]
-    exact Exists.imp (fun rest hr => by rw [hr]) (Mux.windDownTail_flushes _ _ _ _)
+    exact Mux.windDownTail_flushes _ _ _ _
 
 /-- Dropping the Multiplexor makes the task wind down with drain (and without error). -/
 theorem drop_triggers_drain (e : EP) (fuel : Nat) (acc : List Ev) (rest : List Nat)
@@ -162,11 +164,38 @@ theorem drop_triggers_drain (e : EP) (fuel : Nat) (acc : List Ev) (rest : List N
     (hq : e.droppedq = 0 :: rest) :
     settleLoop (fuel + 1) e acc = ((windDown { e with droppedq := rest } true .ok).1,
                                     acc ++ (windDown { e with droppedq := rest } true .ok).2) := by
-  simp [settleLoop, hd, hdr, hc, unpark, hp, hi, hq]
+  have hu : unpark e = e := by simp [unpark, hp]
+  simp [settleLoop, hd, hdr, hc, hu, hp, hi, hq]
+
+/-- In EVERY state an endpoint can reach — any configuration, any sequence of application calls,
+    deliveries, sink back-pressure changes and cancellations, of any length — once the connection
+    task has finished, every stream object ever created is closed in both directions (its reader
+    sees end-of-stream after the queued data, its writer fails), and no flow refers to a stream.
+    (Induction over the stimulus sequence with the invariant `Inv2`, Lemmas/MuxWF + MuxReach.) -/
+theorem every_stream_closed_after_end (o : Opts) (ops : List Mux.Op)
+    (hd : (runOps { opts := o } ops).dead = true) :
+    (∀ (i : Nat) (ob : Obj), (runOps { opts := o } ops).objs[i]? = some ob → ob.closed) ∧
+    (∀ fid i, lookup (runOps { opts := o } ops).flows fid ≠ some (.established i)) :=
+  ⟨reachable_dead_all_closed o ops hd, (reachable_inv o ops).2 hd⟩
+
+/-- … and in every reachable state, finished or not, the flow table and the stream objects are
+    consistent: established flows refer to distinct existing objects, and every object that is still
+    open in some direction is reachable from a flow (so the wind-down, which walks the flow table,
+    cannot miss it). -/
+theorem reachable_wellformed (o : Opts) (ops : List Mux.Op) : WF (runOps { opts := o } ops) :=
+  (reachable_inv o ops).1
 
 /-! Non-vacuity -/
 example : (windDown { opts := {}, outq := [.ping], flows := [(3, .requested 1)],
                       opens := [{ req := 1, host := [], port := 1, retriesLeft := 0 }] } true .wsError).2
     = [.wire .ping, .wireClose, .openDone 1 .closed, .exit .wsError] := by decide
+
+/-- A run that ends with a transport error while the application holds a stream it has written to. -/
+def sampleRun : List Mux.Op :=
+  [.deliver (.msg (.frame (.connect 5 4 80 [1]))), .accept, .write 0 [1, 2], .deliver .err]
+
+example : (runOps { opts := {} } sampleRun).dead = true ∧
+    (runOps { opts := {} } sampleRun).objs.length = 1 ∧ (runOps { opts := {} } sampleRun).handles = [0] := by
+  decide
 
 end Penguin.C08
